@@ -7,6 +7,8 @@
   C18.5 creation time is serialised with a UTC-correct idiom wherever it is hashed or exported
   C18.6 the public twin is built from copies of the private packet's own public terms
   C18.7 issuer key id / issuer fingerprint / recipient key id are those of the operating key itself
+  C18.8 every key packet rebuilt from another one (pubkey, __copy__, sub-key conversion) takes created / pkalg / keymaterial from ONE source
+  C18.9 __copy__ of the key material classes and of the field objects they serialise carries every attribute the serialiser reads
 
 Every rule is decided on interpreter values (byte terms, call / store events, return values); nothing compares source text,
 local names or statement shapes.
@@ -68,6 +70,81 @@ def low_digits(text, base):
     return None
 
 
+def slice_terms(text):
+    """(base, lo, hi) of every SLICE(base;lo;hi) term occurring anywhere in a rendered value."""
+    out = []
+    i = text.find('SLICE(')
+    while i >= 0:
+        j, d, parts, cur = i + 6, 1, [], ''
+        while j < len(text) and d > 0:
+            ch = text[j]
+            if ch in '([{':
+                d += 1
+            elif ch in ')]}':
+                d -= 1
+                if d == 0:
+                    break
+            if ch == ';' and d == 1:
+                parts.append(cur)
+                cur = ''
+            else:
+                cur += ch
+            j += 1
+        parts.append(cur)
+        if len(parts) == 3:
+            out.append(tuple(parts))
+        i = text.find('SLICE(', i + 6)
+    return out
+
+
+def check_fingerprint_cuts(rep, prog):
+    """Outside the Fingerprint accessors, any place that cuts a fingerprint down to an id must take its LOW-order 16 / 8 digits.
+    Functions are located by what they touch (an attribute called *fingerprint* and a slice); the cut is read off the values
+    the interpreter sees in calls, stores, conditions and results (temporaries do not hide it)."""
+    scanned, cuts = 0, 0
+    for fn in prog.all_functions():
+        if fn.cls is not None and fn.cls.name == 'Fingerprint':
+            continue
+        touches = any(isinstance(n, ast.Attribute) and 'fingerprint' in n.attr.lower() for n in ast.walk(fn.node))
+        slices = any(isinstance(n, ast.Subscript) and isinstance(n.slice, ast.Slice) for n in ast.walk(fn.node))
+        if not (touches and slices):
+            continue
+        scanned += 1
+        texts = []
+        try:
+            for s in Interp(prog, Scenario(inline=noinline, join_unknown=True)).run(fn):
+                for c in s.calls:
+                    texts.extend([c[0]] + list(c[1]) + list(c[2].values()))
+                for p, v, l, _ in s.stores:
+                    texts.extend([p, v])
+                texts.extend(f[0] for f in s.facts)
+                texts.extend(render(y) for y in s.yields)
+                texts.append(render(s.ret))
+                texts.append(s.raised or '')
+                for e in s.events:
+                    if e[0] == 'assign':
+                        texts.append(e[2])
+        except AnalysisError:
+            # not interpretable: the slices as written
+            for n in ast.walk(fn.node):
+                if isinstance(n, ast.Subscript) and isinstance(n.slice, ast.Slice):
+                    lo = ast.unparse(n.slice.lower) if n.slice.lower is not None else ''
+                    hi = ast.unparse(n.slice.upper) if n.slice.upper is not None else ''
+                    texts.append('SLICE(%s;%s;%s)' % (ast.unparse(n.value), lo, hi))
+        seen = set()
+        for t in texts:
+            for base, lo, hi in slice_terms(t or ''):
+                if 'fingerprint' not in base.lower() or (base, lo, hi) in seen:
+                    continue
+                seen.add((base, lo, hi))
+                cuts += 1
+                n = low_digits('SLICE(%s;%s;%s)' % (base, lo, hi), base)
+                rep.check(n in (16, 8), 'C18.4', fn.qualname, 'id cut from a fingerprint: %s[%s:%s]' % (base, lo, hi),
+                          'a key id is the low-order 64 (short id: 32) bits of the fingerprint: its LAST 16 (8) hex digits', where=fn.where,
+                          expected='%s[-16:] (or .keyid)' % base, found='%s[%s:%s]' % (base, lo, hi))
+    rep.ok('C18.4', 'package', '%d function(s) touching a fingerprint and slicing scanned, %d direct cut(s)' % (scanned, cuts))
+
+
 def run(rep, prog, tier):
     rep.rule('C18.1', 'fingerprint hash input = RFC 4880 12.2 layout under SHA-1', floor=2)
     rep.rule('C18.2', 'fingerprint terms agree with the exported public-key packet body; packet version is 4', floor=4)
@@ -75,6 +152,8 @@ def run(rep, prog, tier):
     rep.rule('C18.4', 'key id = last 16 hex digits, short id = last 8; PGPKey.fingerprint delegates to the packet', floor=3)
     rep.rule('C18.6', 'the public twin is built from copies of the private packet\'s own public terms (so it has the same fingerprint)', floor=20)
     rep.rule('C18.7', 'issuer key id, issuer fingerprint and recipient key id written are those of the operating key itself', floor=8)
+    rep.rule('C18.8', 'a key packet rebuilt from another takes creation time, algorithm and key material from that one packet', floor=3)
+    rep.rule('C18.9', 'copies of public key material and of its field objects carry every attribute their serialiser reads', floor=8)
     rep.rule('C18.5', 'creation time is serialised with a UTC-correct idiom wherever it is hashed or exported', floor=2)
     rep.assume('int_to_bytes(x, n) emits max(n, byte_length(x), 1) big-endian octets (pgpy.types.PGPObject; checked under C09)')
 
@@ -220,8 +299,11 @@ def run(rep, prog, tier):
     some = [r for r in rets if r != 'None']
     rep.check(some == ['self._key.fingerprint'], 'C18.4', 'PGPKey.fingerprint', 'returns %s' % rets,
               'the key object reports the fingerprint of its key packet', where=kf.where, expected='self._key.fingerprint', found=rets)
+    check_fingerprint_cuts(rep, prog)
     families.check_pubkey_derivation(rep, prog, 'C18.6')
     families.check_ids_rooted_at_self(rep, prog, 'C18.7')
+    families.check_key_packet_rebuilds(rep, prog, 'C18.8')
+    families.check_copy_carries_serialised(rep, prog, 'C18.9')
     # C18.5 time idiom
     check_time_sites(rep, prog, 'C18.5', only=('PubKeyV4.fingerprint', 'PubKeyV4.__bytearray__'))
 
